@@ -93,6 +93,9 @@ type TermStore struct {
 	next  int
 	nsyms map[string]int
 	Syms  []*Term // in creation order
+	// index terms with which each array symbol has been read (for model extraction)
+	SelIdx  map[*Term][]*Term
+	selSeen map[[2]int]bool
 }
 
 func NewTermStore() *TermStore {
@@ -523,6 +526,18 @@ func (ts *TermStore) Extract(a *Term, hi, lo int) *Term {
 	if a.Op == OExtract {
 		return ts.Extract(a.Args[0], hi+a.I2, lo+a.I2)
 	}
+	if lo == 0 {
+		// low bits of modular arithmetic depend only on low bits of the operands
+		switch a.Op {
+		case OBvAdd, OBvSub, OBvMul, OBvAnd, OBvOr, OBvXor:
+			return ts.bin(a.Op, ts.Extract(a.Args[0], hi, 0), ts.Extract(a.Args[1], hi, 0))
+		}
+	}
+	if a.Op == OIte {
+		if (a.Args[1].IsConst() || a.Args[1].Op == OZext) && (a.Args[2].IsConst() || a.Args[2].Op == OZext) {
+			return ts.Ite(a.Args[0], ts.Extract(a.Args[1], hi, lo), ts.Extract(a.Args[2], hi, lo))
+		}
+	}
 	return ts.mk(Term{Op: OExtract, S: Sort{K: SBV, W: w}, Args: []*Term{a}, I1: hi, I2: lo})
 }
 
@@ -603,6 +618,17 @@ func (ts *TermStore) Select(a, i *Term) *Term {
 			return ts.Ite(a.Args[0], ts.Select(a.Args[1], i), ts.Select(a.Args[2], i))
 		}
 		break
+	}
+	if a.Op == OSym {
+		if ts.SelIdx == nil {
+			ts.SelIdx = map[*Term][]*Term{}
+			ts.selSeen = map[[2]int]bool{}
+		}
+		k := [2]int{a.ID, i.ID}
+		if !ts.selSeen[k] {
+			ts.selSeen[k] = true
+			ts.SelIdx[a] = append(ts.SelIdx[a], i)
+		}
 	}
 	return ts.mk(Term{Op: OSelect, S: Sort{K: SBV, W: 8}, Args: []*Term{a, i}})
 }
